@@ -21,8 +21,7 @@ def handle (args : List String) : String :=
   | ["c16.enc", f, d, tp] =>
     match DrvC05.parseFilter f, bytesOfHex d, (if tp == "!" then some none else (bytesOfHex tp).map some) with
     | some f, some d, some tp =>
-      let X : Ext := { inflateZlib := fun _ => none, inflateRaw := fun _ => none, lzw := fun _ _ => none,
-                       dct := fun _ => none, zlibEncode := fun _ => tp.getD [], lzwEncode := fun _ => tp }
+      let X : Ext := { inflateZlib := fun _ => none, inflateRaw := fun _ => none, dct := fun _ => none, zlibEncode := fun _ => tp.getD [], lzwEncode := fun _ => tp }
       DrvC05.showOut (encode X d f)
     | _, _, _ => "bad-request"
   | ["c16.rt", f, d] =>
